@@ -1,7 +1,7 @@
 (* C03 -- Function patterns and symbol geometry are exact for all 40 versions.
    Only property theorems here, each closed by [exact]/[apply] of a lemma, with Print Assumptions. *)
 From Coq Require Import NArith List Bool Arith Lia.
-From FQ Require Import Lib.Mat Model.Types Model.Hardcode Model.Default Model.Qr Spec.Iso Spec.Oracles
+From FQ Require Import Proofs.PropLemmas Lib.Mat Model.Types Model.Hardcode Model.Default Model.Qr Spec.Iso Spec.Oracles
   Proofs.Tables Proofs.Geometry Proofs.GeomSafe Proofs.Build Proofs.BuildMatrix Proofs.Regions.
 Import ListNotations.
 
@@ -11,12 +11,7 @@ Theorem C03_function_patterns : forall input o q, options_wf o -> build input o 
   q_size q = iso_size (q_version q) /\
   forall r c b, r < q_size q -> c < q_size q ->
     region_value (iso_region (q_version q) r c) = Some b -> snd (qget (q_mat q) r c) = b.
-Proof.
-  intros input o q W H. destruct (build_ok_matrix input o q W H) as (Hv & Hk & Hs & _ & _ & _ & _ & Hm).
-  split.
-  - rewrite Hs. now destruct (blank_cell_is_region (q_version q) 0 0 Hv ltac:(rewrite (proj1 (blank_cell_is_region (q_version q) 0 0 Hv ltac:(unfold version_size; cbv [Generated.Tables.size_mul Generated.Tables.size_add]; lia) ltac:(unfold version_size; cbv [Generated.Tables.size_mul Generated.Tables.size_add]; lia))); unfold iso_size; lia) ltac:(rewrite (proj1 (blank_cell_is_region (q_version q) 0 0 Hv ltac:(unfold version_size; cbv [Generated.Tables.size_mul Generated.Tables.size_add]; lia) ltac:(unfold version_size; cbv [Generated.Tables.size_mul Generated.Tables.size_add]; lia))); unfold iso_size; lia)).
-  - intros r c b Hr Hc Hb. rewrite Hm. rewrite Hs in Hr, Hc. now apply final_fixed_value.
-Qed.
+Proof. exact function_patterns_c03. Qed.
 Print Assumptions C03_function_patterns.
 
 (* the blank symbol (values and labels) is the ISO region map for all 40 versions -- the kernel check behind it *)
@@ -37,8 +32,5 @@ Print Assumptions C03_writes_inside_square.
 
 (* the matrix of a built symbol is a size x size square *)
 Theorem C03_matrix_is_square : forall input o q, options_wf o -> build input o = Ok q -> wf (q_size q) (q_mat q).
-Proof.
-  intros input o q W H. destruct (build_ok_matrix input o q W H) as (Hv & Hk & Hs & _ & _ & _ & _ & Hm).
-  rewrite Hm, Hs. now apply final_matrix_wf.
-Qed.
+Proof. exact matrix_is_square_c03. Qed.
 Print Assumptions C03_matrix_is_square.
